@@ -25,7 +25,8 @@ CHECKS = [
           "(conservation: exactly one place per live message; cancelled calls leave the pre- or post-state). Cancellation points are "
           "loop-step indices on a deterministic loop, so a failing interleaving replays exactly. Statistical over histories; the thorough "
           "tier additionally enumerates every cancellation step of every terminal call over a pool of pre-states (cancel-* sub-checks; sampled in "
-          "quick). 'launch'/'collect' rounds keep several consume calls of different clients in flight at once under unequal simulated latencies.",
+          "quick). 'launch'/'collect' rounds keep several consume calls of different clients in flight at once under unequal simulated "
+          "latencies; consumers are paused and resumed in between.",
   "note": _MODEL + _SRV + " One open known finding (D9: RabbitMQ requeue is ack+publish, not atomic) is excluded by signature."},
  {"property_id": "C02", "level": "exploration", "design_ref": "DESIGN.md §4 C02",
   "technique": "scenario property-based testing (Hypothesis) with scripted actors against a decision-table reference model, 3 brokers",
@@ -40,12 +41,14 @@ CHECKS = [
           "terminal calls that completed, absent / dead / queued exactly once with its retry counter unchanged; Redis recovery is checked "
           "against take-time + execution timeout with maintenance runs before and after. The thorough tier is exhaustive over all steps of "
           "the pooled scenarios (not over all workloads); stop-random-* additionally injects into freshly generated workloads, aimed near "
-          "broker events of a dry run; kill-* mixes execution timeouts and runs maintenance at every deadline.",
+          "broker events of a dry run; kill-* mixes execution timeouts (seconds to days) and runs maintenance at every deadline; limit-multi generates workloads "
+          "over 2-3 queues with a message limit, microsecond-grid durations and an optional stop signal, so a message of another queue "
+          "is handed back exactly while the last counted execution ends.",
   "note": _MODEL + _SRV + " asyncio has no preemption inside a loop step, so loop steps are the complete set of interleaving points for one process."},
  {"property_id": "C04", "level": "exploration", "design_ref": "DESIGN.md §4 C04",
   "technique": "scenario property-based testing of retry chains against a retry-ladder model plus parameter-level checks of _prepare_retry",
   "text": _WORKER + " Oracle = executions per scheduling, counter seen per attempt, already_tried+1<=N, next_execution_time==now+policy(k) to "
-          "the microsecond, next attempt not before failure+policy(k)-1ms, end state. large-* sub-checks use back-offs of days to weeks.",
+          "the microsecond, next attempt not before failure+policy(k)-1ms, end state. large-* sub-checks use back-offs of days to weeks; attempts may answer with an eager retry / forced retry.",
   "note": _MODEL + _SRV},
  {"property_id": "C05", "level": "exploration", "design_ref": "DESIGN.md §4 C05",
   "technique": "property-based testing of broker-level delivery timing on a virtual clock (due times at generated sub-second phases) with early/late/visibility oracles, 3 brokers",
@@ -59,7 +62,8 @@ CHECKS = [
   "technique": "property-based testing of reschedule arithmetic over generated iteration programmes (pinned clock) plus worker-level recurring scenarios on 3 brokers",
   "text": _WORKER + " Parameter-level layer drives the real _prepare_retry/_prepare_reschedule through 2-10 iterations with generated "
           "latency/duration profiles; oracle = one successor, counter reset, TTL restarted, now<S_next<=now+p, S_next>=S_prev+p. "
-          "amqp-long-period runs periods of 1-30 days through the RabbitMQ model.",
+          "amqp-long-period runs periods of 1-30 days through the RabbitMQ model. fleet-* serve 1-3 recurring jobs on one time base with "
+          "2-3 workers of their own connections that are stopped and replaced while the others run: every slot runs exactly once.",
   "note": _MODEL + _SRV + " cron schedules are not exercised (croniter not installed)."},
  {"property_id": "C07", "level": "exploration", "design_ref": "DESIGN.md §4 C07",
   "technique": "round-trip and injectivity property-based testing of codecs and key encodings, plus end-to-end producer->broker->consumer->actor identity checks on 3 brokers",
@@ -92,13 +96,13 @@ CHECKS = [
   "text": "Generated ttl/age/kind (immediate, delayed before/after expiry, retried, rescheduled, no ttl) with the consume (or worker start) "
           "instant placed at expiry+eps; oracle: after expiry never handed over / executed, dead-lettered and retrievable from the DEAD category "
           "with identical content; before expiry delivered and never dead-lettered; cases inside the latency slack band counted unconstrained; "
-          "a broker spinning on an expiring message (step watchdog) is reported; 1-4 adjacent copies of the expiring message.",
+          "a broker spinning on an expiring message (step watchdog) is reported; 1-4 adjacent copies of the expiring message; time-to-live values from seconds to 400 days (scheduled long ago).",
   "note": _MODEL + _SRV},
  {"property_id": "C13", "level": "exploration", "design_ref": "DESIGN.md §4 C13",
   "technique": "scenario property-based testing of stored results against the model's latest-execution outcome, plus fault-injection differential on store_bucket",
   "text": _WORKER + " Fault sub-check makes the k-th result store_bucket call raise and requires dispositions and final places to equal "
           "the fault-free run of the same generated scenario. The stop sub-check injects the stop signal at loop steps around the result "
-          "store of a dry run (every step in the thorough tier): a job whose disposition was reported must have its result stored.",
+          "store of a dry run (every step in the thorough tier): a job whose disposition was reported must have its result stored. Outcomes include eager responses given by a dependency.",
   "note": _MODEL + _SRV + " AMQP scenarios use in-memory bucket brokers."},
  {"property_id": "C10", "level": "exploration", "design_ref": "DESIGN.md §4 C10",
   "technique": "scenario property-based testing of messages_limit (bound, self-stop, untouched remainder) and of the run-on-enqueue testing modifier",
@@ -108,39 +112,47 @@ CHECKS = [
   "technique": "stateful property-based testing with concurrent consume launches over several clients and generated latencies; holder-map oracle; multi-worker exactly-once check",
   "text": "Interleavings of several consumers/clients are permuted by generated per-round-trip latencies on a deterministic loop; the holder "
           "map is maintained from hand-over/return events and every history ends by draining all consumers. Worker level: 2-3 workers on one "
-          "queue, each succeeding job executed exactly once. Statistical over histories and latency vectors.",
+          "queue, each succeeding job executed exactly once. bulk-*: 100-300 (mostly delayed, distinct due times) messages drained by 2-3 "
+          "concurrent consumers, each handed out exactly once. Statistical over histories and latency vectors.",
   "note": _MODEL + _SRV + " Open known finding D24 (Redis maintenance reclaims messages of live consumers after the execution timeout) is excluded by signature."},
  {"property_id": "C15", "level": "exploration", "design_ref": "DESIGN.md §4 C15",
   "technique": "model-based property-based testing of delivery order (single consumer, single priority) with drain / continuous-backlog / reject-and-reawait histories, 3 brokers",
   "text": "Order oracle over the event stream (enqueue, deliver, return): no never-returned message overtakes an earlier-enqueued waiting "
           "one; a returned message precedes everything enqueued after its return; nothing matching starves while the consumer polls; "
           "queue lengths cross Redis's fetch window of 10; a spinning broker call (step watchdog) is reported; foreign-run mode puts 10-30 "
-          "foreign-topic messages ahead of own ones, with returns and a second consumer eating the run.",
+          "foreign-topic messages ahead of own ones, with returns and a second consumer eating the run; pause mode pauses and resumes the "
+          "consumer while messages (some prefetched) wait; a third of the cases mix several priority levels in the queue.",
   "note": _MODEL + _SRV + " Open known finding D20 (RabbitMQ foreign-topic head-of-line blocking under a small prefetch limit) is excluded by signature."},
  {"property_id": "C16", "level": "exploration", "design_ref": "DESIGN.md §4 C16",
   "technique": "model-based property-based testing of message-API call sequences on handles of every category and retry state; generated actor programmes for callback/result-store order",
   "text": "Per handle a small state model (usable / refused by category / refused by budget / consumed) predicts for every generated call whether "
           "it raises and which single broker call it may cause (observed at the connection boundary); actor programmes check callback order, "
-          "position and value of the lazily placed result store, and that nothing runs after the eager response.",
+          "position and value of the lazily placed result store, and that nothing runs after the eager response. dependency-eager: the eager response is given by a dependency of the actor - one "
+          "terminal action, body never entered, nothing reported on top.",
   "note": _MODEL + _SRV},
  {"property_id": "C17", "level": "exploration", "design_ref": "DESIGN.md §4 C17",
   "technique": "differential property-based testing: the same lifecycle script with and without generated subscriber sets (signatures, sync/async, raising), signal-log oracle, two connections",
   "text": "Every wrapped operation is exercised by a fixed lifecycle script under generated call styles and subscriber sets; the signal log "
           "must show exactly one before (seen in the pre-state) and one after iff the call returned, with the actual arguments by name and the "
           "result, nothing from nested calls and nothing to another connection's subscribers; results, exceptions and final broker state must "
-          "equal the subscriber-free run. The script's actor enqueues a sentinel job from inside its body (nested operation inside actor_run).",
+          "equal the subscriber-free run. The script's actor enqueues a sentinel job from inside its body (nested operation inside actor_run). A "
+          "signal-completeness probe instruments the functions under the middleware wrapper and decides nesting by dynamic extent over a "
+          "task-parent map: every top-level execution of a wrapped operation - by the script, the worker or a consumer's background task - "
+          "was announced; redis-background repeats that with one failing Redis round trip.",
   "note": _MODEL + _SRV},
  {"property_id": "C18", "level": "exploration", "design_ref": "DESIGN.md §4 C18",
   "technique": "property-based testing over generated dependency DAGs (exec-ed providers) against a recursive reference evaluator, with override sequences, failing providers and invalid declarations",
   "text": "Random DAGs with shared nodes, sync/async providers and message-dependency leaves are resolved by a real Worker; a 15-line recursive "
           "evaluator over the current graph gives the expected value of every dependency parameter; overrides are applied between jobs; provider "
           "failure must follow the retry ladder without running the body; unsupported declarations must raise at declaration time. Several "
-          "messages are resolved concurrently through shared Depends objects whose providers suspend.",
+          "messages are resolved concurrently through shared Depends objects whose providers suspend; alias nodes are separate Depends "
+          "objects over one provider function, overridable on their own.",
   "note": _MODEL + " In-memory broker only (dependency resolution is broker-independent)."},
  {"property_id": "C19", "level": "exploration", "design_ref": "DESIGN.md §4 C19",
   "technique": "property-based testing (Hypothesis) of pure functions against arithmetic oracles under a pinned clock",
   "text": "Generated search (tens of thousands of inputs per run, boundary classes constructed on purpose: exact period multiples ±1µs, "
           "now==expiry ±1µs, n above max_exponent, clipped results) against explicit arithmetic oracles. Cannot prove absence; the "
-          "functions are small and pure, so boundary-directed generation is the right cost/assurance point.",
+          "functions are small and pure, so boundary-directed generation is the right cost/assurance point. store-redis: buckets written through the Redis bucket broker (fresh, old timestamp, "
+          "re-stored) and read around timestamp+ttl on the server model.",
   "note": _MODEL + " max_exponent ≤ 10^4 by generator bound; cron not exercised (croniter absent)."},
 ]
